@@ -136,8 +136,8 @@ def isRO (p : Option RS) : Bool := match p with | some s => s.ro | none => false
 /-- the request-side pre-loop of `visitJSONObject`: a readOnly property whose value is present **and not
 null** (`value[propName] != nil`) is an error unless read-only validation is disabled -/
 def roLoopOK (exro : Bool) (props : List (Str × RS)) (kvs : List (Str × V)) : Bool :=
-  props.all fun (k, p) =>
-    !(p.ro && !exro) || (match lookup k kvs with | some v => v.isNull | none => true)
+  (keys props).all fun k =>      -- `for _, propName := range sortedNames { propSchema := schema.Properties[propName] …`
+    !(isRO (lookup k props) && !exro) || (match lookup k kvs with | some v => v.isNull | none => true)
 
 /-- the `required` loop: a missing key is an error unless the property is declared readOnly (request side;
 this exemption does not look at the exclusion option) -/
@@ -187,7 +187,7 @@ def SatReq (exro : Bool) (s : RS) : V → Prop
   | .arr xs => (s.ty = none ∨ s.ty = some .array) ∧ (∀ it, s.items = some it → SatItems exro it xs)
   | .obj kvs => (s.ty = none ∨ s.ty = some .object) ∧ SatFields exro s kvs ∧
       (∀ k ∈ s.required, k ∈ keys kvs ∨ isRO (lookup k s.props) = true) ∧
-      (exro = false → ∀ k p, (k, p) ∈ s.props → p.ro = true → k ∉ keys kvs)
+      (exro = false → ∀ k, isRO (lookup k s.props) = true → k ∉ keys kvs)
 def SatItems (exro : Bool) (it : RS) : List V → Prop
   | [] => True
   | v :: r => SatReq exro it v ∧ SatItems exro it r
@@ -213,7 +213,7 @@ def satReqB (exro : Bool) (s : RS) : V → Bool
       (match s.items with | none => true | some it => satItemsB exro it xs)
   | .obj kvs => (s.ty == none || s.ty == some .object) && satFieldsB exro s kvs &&
       (s.required.all fun k => (keys kvs).contains k || isRO (lookup k s.props)) &&
-      (exro || s.props.all fun (k, p) => !p.ro || !(keys kvs).contains k)
+      (exro || (keys s.props).all fun k => !isRO (lookup k s.props) || !(keys kvs).contains k)
 def satItemsB (exro : Bool) (it : RS) : List V → Bool
   | [] => true
   | v :: r => satReqB exro it v && satItemsB exro it r
@@ -403,35 +403,39 @@ def parseItems (ity : Option Ty) : List Str → Option (Option (List V))
       | some none => some none
       | some (some vs) => some (some (v :: vs))
 
+/-- the raw item texts of an array property: all values when exploded, else the first value split at the
+style's delimiter (`urlValuesDecoder.DecodeArray`) -/
+def arrayRaw (e : Option Enc) (v0 : Str) (rest : List Str) : Option (List Str) :=
+  if smExplode e then some (v0 :: rest)
+  else if smStyle e = "form".toList then some (splitOn ',' v0)
+  else if smStyle e = "spaceDelimited".toList then some (splitOn ' ' v0)
+  else if smStyle e = "pipeDelimited".toList then some (splitOn '|' v0)
+  else none     -- strings.Split(s, ""): not modelled, not generated
+
+def itemTy (p : RS) : Option Ty := (p.items.map (·.ty)).getD none
+
 /-- `decodeProperty` → `decodeValue` for one property of a form body. `none` = error (the caller `continue`s:
 the property is dropped); `some v` = value stored (`null` when there is nothing to store). -/
 def decodeFormProp (fields : List (Str × List Str)) (name : Str) (p : RS) (e : Option Enc) : Option V :=
-  let vals := (lookup name fields).getD []
   match p.ty with
   | none => some .null
   | some .array =>
     if smStyle e = "deepObject".toList then none else
-    match vals with
+    match (lookup name fields).getD [] with
     | [] => some .null
-    | v0 :: _ =>
-      let raw : Option (List Str) :=
-        if smExplode e then some vals
-        else if smStyle e = "form".toList then some (splitOn ',' v0)
-        else if smStyle e = "spaceDelimited".toList then some (splitOn ' ' v0)
-        else if smStyle e = "pipeDelimited".toList then some (splitOn '|' v0)
-        else none     -- strings.Split(s, ""): not modelled, not generated
-      match raw with
+    | v0 :: rest =>
+      match arrayRaw e v0 rest with
       | none => none
       | some raw =>
-        match parseItems ((p.items.map (·.ty)).getD none) raw with
+        match parseItems (itemTy p) raw with
         | none => none
         | some none => some .null
         | some (some []) => some .null
-        | some (some vs) => some (.arr vs)
+        | some (some (v :: vs)) => some (.arr (v :: vs))
   | some .object => none
   | some t =>
     if smStyle e ≠ "form".toList then none else
-    match vals with
+    match (lookup name fields).getD [] with
     | [] => some .null
     | v0 :: _ => parsePrimitive v0 (some t)
 
@@ -594,16 +598,9 @@ def specFormProp (fields : List (Str × List Str)) (name : Str) (p : RS) (e : Op
     match p.ty with
     | none => some (some (.str v0))
     | some .array =>
-      let ity := ((p.items.map (·.ty)).getD none).getD .string
-      let raw : Option (List Str) :=
-        if smExplode e then some (v0 :: vs)
-        else if smStyle e = "form".toList then some (splitOn ',' v0)
-        else if smStyle e = "spaceDelimited".toList then some (splitOn ' ' v0)
-        else if smStyle e = "pipeDelimited".toList then some (splitOn '|' v0)
-        else none
-      (match raw with
+      (match arrayRaw e v0 vs with
        | none => none
-       | some raw => (encodesAll ity raw).map fun l => some (.arr l))
+       | some raw => (encodesAll ((itemTy p).getD .string) raw).map fun l => some (.arr l))
     | some .object => none
     | some t => (encodesPrim t v0).map some
 
